@@ -143,7 +143,7 @@ const (
 
 type qspec struct {
 	name, parent, alloc int64
-	state              int64 // Status.State: 0 "", 1 Open, 2 Closed, 3 Closing, 4 Unknown
+	state               int64 // Status.State: 0 "", 1 Open, 2 Closed, 3 Closing, 4 Unknown
 	cap, des, guar      rl
 }
 
